@@ -140,6 +140,12 @@ Theorem C19_index_set_perm : forall (e e' : list Z) (len : nat), Permutation e e
 Proof. exact index_set_perm. Qed.
 Print Assumptions C19_index_set_perm.
 
+(* ... and the array is exactly the characteristic vector of the set *)
+Theorem C19_index_assign_spec : forall (e : list Z) (len k : nat), (k < len)%nat ->
+  nth k (index_assign e len) false = existsb (Z.eqb (Z.of_nat k)) e.
+Proof. exact index_assign_spec. Qed.
+Print Assumptions C19_index_assign_spec.
+
 (* ---- (b) order_free_*: restated from the proof files of the owning properties ---- *)
 
 (* C01: the Morgan ranks do not depend on the insertion order of atoms / adjacency rows / neighbours, for ANY hash *)
